@@ -1514,10 +1514,12 @@ func (e *Engine) guardCheck(st *State, f *Frame, in ssa.Instruction, mobj int, w
 		return // harness code inspecting state
 	}
 	held := st.locks[g.lock]
-	if held == 0 || ((write || del) && held < 1000) {
-		e.failHere(st, g.label, "lock", "guarded table accessed without its lock @ "+e.pos(f, in))
-	} else {
-		e.incTrivial(g.label)
+	for _, label := range strings.Split(g.label, "|") {
+		if held == 0 || ((write || del) && held < 1000) {
+			e.failHere(st, label, "lock", "guarded table accessed without its lock @ "+e.pos(f, in))
+		} else {
+			e.incTrivial(label)
+		}
 	}
 }
 
